@@ -10,7 +10,7 @@ PLAN = {
     "C15": ["configsearch"],
     "C16": ["selection"],
     "C17": ["stdin"],
-    "C18": ["diff", "diffcorpus"],
+    "C18": ["diff", "diffcorpus", "stdin"],
     "C20": ["carriers"],
     "C19": ["exitcode", "threads", "clifiles"],
 }
@@ -18,10 +18,10 @@ TRACE_SPEC = {}
 
 
 def _expected_formats(items):
-    """items: list of (key, src_bytes, cfg) -> key -> formatted text or None"""
-    req = [{"id": k, "src": b.decode("utf-8", "replace"), "cfg": cfg} for k, b, cfg in items]
+    """items: list of (key, src_bytes, cfg[, range]) -> key -> formatted text or None"""
+    req = [dict({"id": it[0], "src": it[1].decode("utf-8", "replace"), "cfg": it[2]}, **({"range": it[3]} if len(it) > 3 else {})) for it in items]
     res = clirun.libfmt_batch(req)
-    return {k: (res.get(k, ("?", None))[1] if res.get(k, ("?", None))[0] == "ok" else None) for k, _, _ in items}
+    return {it[0]: (res.get(it[0], ("?", None))[1] if res.get(it[0], ("?", None))[0] == "ok" else None) for it in items}
 
 
 def src_clifiles(tier, seed):
@@ -55,6 +55,8 @@ def src_clifiles(tier, seed):
             argv.append("--verify")
         if c["sortreq"]:
             argv.append("--sort-requires")
+        if c.get("rng"):
+            argv += ["--range-start", "0", "--range-end", "5"]
         argv += ["--num-threads", str(c["threads"])]
         argv += argv_paths
         meta = dict(c)
@@ -76,7 +78,7 @@ def src_clifiles(tier, seed):
 
 
 CFG_SRC = b"do\nlocal   x = 's'\nend\n"
-ALL_MARKS = [0, 1, 2, 3, 4, 5, 11, 12, 13, 14, 15, 21, 22, 23, 24, 25, 31, 32, 33, 34, 40, 50]
+ALL_MARKS = [0, 1, 2, 3, 4, 5, 11, 12, 13, 14, 15, 21, 22, 23, 24, 25, 31, 32, 33, 34, 40, 50, 71, 72, 73, 74, 75]
 
 
 def mark_cfg(m):
@@ -105,7 +107,8 @@ def src_configsearch(tier, seed):
                 tree.append({"path": names[i] + "/.stylua.toml", "text": toml_for(10 + i)})
             if lv["ec"] != "none":
                 tree.append({"path": names[i] + "/.editorconfig",
-                             "text": ("root = true\n\n" if lv["ec"] == "root" else "") + "[*.lua]\nindent_style = space\nindent_size = %d\n" % (20 + i)})
+                             "text": ("root = true\n\n" if lv["ec"] == "root" else "") + "[*.lua]\nindent_style = space\nindent_size = %d\n" % (20 + i)
+                                     + ("\n[u*.lua]\nindent_size = %d\n" % (70 + i) if lv["ec"] == "perfile" else "")})
         s = {"id": "cs%d" % n, "cwd": names[3]}
         if sc["xdg"]:
             tree.append({"path": "gx/stylua.toml", "text": toml_for(31)})
@@ -135,7 +138,7 @@ def src_configsearch(tier, seed):
         for tg in c["targets"]:
             t = dict(tg)
             if tg["kind"] in ("file", "dirfile"):
-                nm = "t%d.lua" % tg["level"]
+                nm = ("u%d.lua" if tg.get("alt") else "t%d.lua") % tg["level"]
                 pth = rel[tg["level"]] + nm
                 if pth in seen_paths:
                     pth = rel[tg["level"]] + "u%d.lua" % tg["level"]
@@ -311,6 +314,10 @@ def src_carriers(tier, seed):
     raw.sort(key=lambda c: json.dumps(c, sort_keys=True))
     reqs = {}
     scenarios = []
+    TABLE_BY_OPT = {}
+    for c in raw:
+        if c["kind"] == "carrier" and c["entry"] not in TABLE_BY_OPT.setdefault(c["entry"]["opt"], []):
+            TABLE_BY_OPT[c["entry"]["opt"]].append(c["entry"])
     for n, c in enumerate(raw):
         e = c["entry"]
         probe = PROBES[e["probe"]]
@@ -331,6 +338,10 @@ def src_carriers(tier, seed):
             if k in ("toml", "dottoml"):
                 line = "[sort_requires]\nenabled = true\n" if e["opt"] == "sort_requires" else "%s = %s\n" % (e["opt"], toml_value(e))
                 tree.append({"path": "stylua.toml" if k == "toml" else ".stylua.toml", "text": base_toml + line, "class": "raw"})
+                # an .editorconfig saying something else for the same option has no effect once a stylua.toml is found
+                other = next((x["ecval"] for x in TABLE_BY_OPT.get(e["opt"], []) if x["ecval"] and x["ecval"] != e["ecval"] and x["eckey"] == e["eckey"]), None)
+                if e["eckey"] and (other or e["opt"] in ("column_width", "indent_width")):
+                    tree.append({"path": ".editorconfig", "text": "root = true\n\n[*.lua]\n%s = %s\n" % (e["eckey"], other or "7"), "class": "raw"})
             elif k.startswith("flag"):
                 v = e["v"]
                 if k == "flag_lower":
@@ -412,6 +423,7 @@ def src_stdin(tier, seed):
         reqs.append(("fmt:" + cls, stdin_input(cls).encode(), {}))
         reqs.append(("fmt_cfgdir:" + cls, stdin_input(cls).encode(), {"indent_type": "Spaces", "indent_width": 3}))
         reqs.append(("fmt_ecdir:" + cls, stdin_input(cls).encode(), {"indent_type": "Spaces", "indent_width": 5}))
+        reqs.append(("fmt_range_end:" + cls, stdin_input(cls).encode(), {}, {"start": None, "end": 17}))
     lib = _expected_formats(reqs)
     for n, r in enumerate(raw):
         c = r["c"]
@@ -439,10 +451,18 @@ def src_stdin(tier, seed):
             argv.append("--verify")
         elif c["extra"] == "threads1":
             argv += ["--num-threads", "1"]
+        elif c["extra"] == "range_end":
+            argv += ["--range-end", "17"]       # a range with only one bound
         argv.append("-")
         exp = {"input": text, "fmt": lib.get("fmt:" + c["input"]), "fmt_cfgdir": lib.get("fmt_cfgdir:" + c["input"]),
-               "fmt_ecdir": lib.get("fmt_ecdir:" + c["input"])}
-        scenarios.append({"id": "si%d" % n, "tree": tree, "argv": argv, "stdin": {"text": text}, "stdout_expect": exp, "timeout": 60 if c["input"] != "large" else 600,
+               "fmt_ecdir": lib.get("fmt_ecdir:" + c["input"]),
+               "fmt_range_end": lib.get("fmt_range_end:" + c["input"]) if c["mode"] == "write" or c["input"] != "large" else None}
+        ekey = "fmt_range_end" if c["extra"] == "range_end" else "fmt_cfgdir" if pc == "cfgdir" else "fmt_ecdir" if pc == "ecdir" else "fmt"
+        if c["mode"] != "write" and c["input"] == "large":
+            # the check modes use the shorter large input: its formatted text is not in the table
+            exp = dict(exp, **{ekey: None})
+        dfacts = {"diff_facts": {"stdin": True, "expect_key": ekey}} if c["mode"] in ("check_unified", "check_json") and not r["expect"]["passthrough"] else {}
+        scenarios.append({"id": "si%d" % n, "tree": tree, "argv": argv, "stdin": {"text": text}, "stdout_expect": exp, **dfacts, "timeout": 60 if c["input"] != "large" else 600,
                           "meta": {"kind": "stdin", "c": c, "expect": r["expect"],
                                    "sig": "input=%s;mode=%s;path=%s;extra=%s" % (c["input"], c["mode"], pc, c["extra"])}})
     return scenarios, st
@@ -633,8 +653,10 @@ def src_threads(tier, seed):
                                                    "sig": "threads-configs"}})
     # third family: pairs of files that share a directory and a stem (mod1.lua / mod1.luau): whatever scratch names or
     # per-file resources a worker derives from a path must not collide between two files handled at the same time
-    pairs = [("same/mod%d.%s" % (k, ext), "unformatted") for k in range(1, 7) for ext in ("lua", "luau")]
+    pairs = [("same/mod%d.%s" % (k, ext), "unformatted") for k in range(1, 7) for ext in ("lua", "luau")] + [("same/deep.lua", "unformatted")]
     ptexts = {p_: "local   m%d   =   { %d,%d }\nlocal function f%d( a,b )\nreturn a+b\nend\n" % (i, i, i + 1, i) for i, (p_, _) in enumerate(pairs)}
+    # moderately nested (24 blocks): what a worker can format must not depend on how many workers there are
+    ptexts["same/deep.lua"] = "do\n" * 24 + "local   d   =   1\n" + "end\n" * 24
     plib = _expected_formats([(p_, ptexts[p_].encode(), {"syntax": "All"}) for p_, _ in pairs])
     if all(plib.get(p_) is not None for p_, _ in pairs):
         for t in range(1, 17):
